@@ -47,13 +47,28 @@ type SliceV struct {
 	minLen int   // positions [0,minLen) are certainly inside len
 	maxLen int   // path-local upper bound on len (0 with known==false means: use the allocation size)
 	hasMax bool
-	blob   Value // non-nil: opaque protobuf encoding of this value (a *StructV)
+	blob   Value  // non-nil: opaque protobuf encoding of this value (a *StructV)
 	tag    string // provenance tag for modelled strings (e.g. "b32enc")
 }
 
 type GSliceV struct {
 	e     []*Cell
 	isNil bool
+	// spare holds the cells of the backing array beyond the length (cap = len(e)+len(spare)); views of
+	// one backing array share the cell pointers, so an in-place append is seen through all of them
+	spare []*Cell
+	// capUnknown: made with a symbolic capacity; cap() on it is not answered
+	capUnknown bool
+}
+
+func (g *GSliceV) gocap() int { return len(g.e) + len(g.spare) }
+
+// full returns the cells of the backing array from the slice's start to its capacity.
+func (g *GSliceV) full() []*Cell {
+	if len(g.spare) == 0 {
+		return g.e
+	}
+	return append(append(make([]*Cell, 0, g.gocap()), g.e...), g.spare...)
 }
 
 type StructV struct{ f []*Cell }
@@ -70,9 +85,9 @@ type IfaceV struct {
 	v Value
 }
 type FuncV struct {
-	fn       *ssa.Function
-	bindings []Value
-	recv     Value  // bound method receiver (for interface method values)
+	fn        *ssa.Function
+	bindings  []Value
+	recv      Value  // bound method receiver (for interface method values)
 	intrinsic string // engine-implemented function value
 }
 type mapEntry struct {
@@ -88,6 +103,7 @@ type BigV struct {
 type ErrObj struct {
 	name string
 	wrap *ErrObj
+	msg  string // description added by Wrap/Wrapf (format string), "" otherwise
 }
 
 type ModelObj struct {
@@ -98,9 +114,11 @@ type ModelObj struct {
 	// iterator
 	items []storeItem
 	pos   int
-	env *EnvState
+	env   *EnvState
 	// generic payload
 	data map[string]Value
+	// created by a package initialiser (package-level, shared by every keeper instance)
+	global bool
 }
 
 const bigW = 264
@@ -319,9 +337,12 @@ func (cl *cloner) val(v Value) Value {
 		}
 		return &n
 	case *GSliceV:
-		n := &GSliceV{isNil: x.isNil, e: make([]*Cell, len(x.e))}
+		n := &GSliceV{isNil: x.isNil, e: make([]*Cell, len(x.e)), capUnknown: x.capUnknown}
 		for i, c := range x.e {
 			n.e[i] = cl.cell(c)
+		}
+		for _, c := range x.spare {
+			n.spare = append(n.spare, cl.cell(c))
 		}
 		return n
 	case *StructV:
